@@ -38,10 +38,10 @@ INVARIANT NeverDies
 INVARIANT ClosedIsClean
 INVARIANT CacheIsFetched"""
 
-VARIANTS = [("inline", "nonull"), ("outofline", "nonull"), ("inline", "nocheck"), ("outofline", "nocheck"),
+VARIANTS = [("inline", "noclose-when-not-owner"), ("inline", "nonull"), ("outofline", "nonull"), ("inline", "nocheck"), ("outofline", "nocheck"),
             ("outofline", "noclear")]
-NEEDED = {"inline": {"Open", "Close", "Call", "IGetFunc", "IReadVar", "IWriteVar", "IAddressOfVar"},
-          "outofline": {"Open", "Close", "Call", "OGet", "OReadVar", "OWriteVar"}}
+NEEDED = {"inline": {"Open", "OpenH", "Close", "Call", "IGetFunc", "IReadVar", "IWriteVar", "IAddressOfVar"},
+          "outofline": {"Open", "OpenH", "Close", "Call", "OGet", "OReadVar", "OWriteVar"}}
 
 CLAUSE = {"getfunc": "fetching a function that was not fetched before the close did not raise, or reached dlsym()",
           "readvar": "reading a global variable through a closed lib did not raise, or reached dlsym()",
@@ -52,7 +52,9 @@ CLAUSE = {"getfunc": "fetching a function that was not fetched before the close 
 def op_of(action, args):
     a = list(args)
     if action == "Open":
-        return ["open", a[0], "", a[1], 0]
+        return ["open", a[0], "", a[1], 0, "a", "path"]
+    if action == "OpenH":          # the program calls dlopen() itself and passes the handle to ffi.dlopen()
+        return ["open", a[0], "", a[1], 0, "a", "handle"]
     if action == "Close":
         return ["close", a[0], "", "", 0]
     if action == "Call":
@@ -99,7 +101,7 @@ class G:
                 res.append(list(path))
                 return
             for act, args, dst in es:
-                if not path and not (act == "Open" and args[0] == 1):
+                if not path and not (act in ("Open", "OpenH") and args[0] == 1):
                     continue
                 path.append((act, args))
                 rec(dst, path)
@@ -154,7 +156,8 @@ def random_history(rng, length):
         if (not opened or r < 0.12) and nextid <= 8:
             l = nextid
             nextid += 1
-            ops.append(["open", l, "", rng.choice(["local", "global", "lazy", ""]), 0, rng.choice("ab")])
+            ops.append(["open", l, "", rng.choice(["local", "global", "lazy", ""]), 0, rng.choice("ab"),
+                        rng.choice(["path", "handle"])])
             state[l] = "open"
             fetched[l] = set()
             continue
@@ -291,9 +294,12 @@ def run(ctx):
     exhaustive = True
     for mode in ("inline", "outofline"):
         g = graphs[mode]
-        depth = 4 if quick or mode == "inline" else 5
+        depth = 3 if quick else 4
         paths = g.all_upto(depth)
-        cover, ncov = g.edge_cover(ctx.rng, 1000 if quick else None)
+        if quick:                       # plus a sample of the sequences of length 4
+            longer = g.all_upto(4)
+            paths += ctx.rng.sample(longer, min(len(longer), 2000))
+        cover, ncov = g.edge_cover(ctx.rng, 1000 if quick else 40000)
         if ncov < g.nedges:
             exhaustive = False
         paths += cover
